@@ -23,7 +23,8 @@ class SimCase:
     """One abstract case: candle symbols, resting orders, optional reaction order."""
 
     def __init__(self, order_prices: List[str], reaction: Optional[Tuple[int, str]] = None,
-                 inactive: Optional[List[int]] = None, extra_cons=()):
+                 inactive: Optional[List[int]] = None, extra_cons=(), replaces: Optional[int] = None):
+        self.replaces = replaces                  # index of a resting order that the reaction CANCELS before it submits (one-for-one replacement)
         self.extra_cons = list(extra_cons)  # additional ordering constraints (symmetry breaking)
         self.order_prices = order_prices          # atom names of resting order prices
         self.reaction = reaction                  # (index of fill that triggers it, atom name of its price)
@@ -79,6 +80,10 @@ def build(repo: Repo, case: SimCase, samples: List[Dict[str, Fraction]], decisio
         it.event("fill", o.name, position.attrs.get("current_price"), o.attrs["price"])
         if case.reaction is not None and len(fills) - 1 == case.reaction[0]:
             names = case.reaction[1] if isinstance(case.reaction[1], (list, tuple)) else [case.reaction[1]]
+            if case.replaces is not None and orders[case.replaces] is not o:
+                # a trailing exit: the hook cancels one resting order (the repository's Order.cancel) and submits its replacement
+                it.call(it.getattr(orders[case.replaces], "cancel"), [], {})
+                it.event("reaction_cancelled", orders[case.replaces].name)
             for j, rn in enumerate(names):
                 ro = W.make_order(repo, "REACT" if j == 0 else f"REACT{j + 1}", buy, limit, R.atom("qr"), R.atom(rn), status=st_active)
                 # what Sandbox.limit_order -> store.orders.add_order does
